@@ -118,3 +118,10 @@ check(
     "grammar-based Hypothesis generation + stateful histories; independent parsers as oracles",
     "DESIGN.md §3 C14",
 )
+check(
+    "C18", "exploration",
+    "Generated search through the real semgrep binary for the 22 rule-detected codemods: harvested triggers whose bare form is flagged and rewritten (declined shapes are recognised operationally and exempt, counted) x the program-space transformations (aliases, contexts, layouts, extra arguments, quote styles, two sites per line, nested sites, non-ASCII text before the site, attribute access broken over lines in parentheses), as a deterministic single-feature sweep plus random multi-feature batches. The harness runs semgrep itself with the codemod's rule text before and after the CLI run: every flagged location must be touched by the diff or its file listed as failed, and after the run the rule must not match inside any statement the run rewrote.",
+    "Trusted: semgrep 1.90 in /venv/bin as the detector (rule text taken from the repository, invocation and JSON parsing by the harness); declined shapes = the repository's negative tests + bare seeds that are flagged but left alone + shapes the transformations manufacture by construction (tuple-valued operands, several with-items), all counted in the evidence.",
+    "Hypothesis property-based testing + deterministic sweep; detector/transformer agreement and re-detection via independent semgrep runs",
+    "DESIGN.md §3 C18",
+)
